@@ -42,6 +42,11 @@ def init_zygote():
     hw.init_zygote()
 
 
+def batch_meta():
+    from ..threadsim import cover_totals
+    return {"pp_totals": cover_totals()}
+
+
 # --------------------------------------------------------------------------
 # generation
 
